@@ -12,3 +12,6 @@ open Biogo.Properties.C07
 #print axioms delete_exact_aln
 #print axioms delete_exact_multi
 #print axioms append_each_exact_aln
+#print axioms append_each_exact_multi
+#print axioms append_columns_exact_multi
+#print axioms flush_preserves
